@@ -167,10 +167,19 @@ class Result:
 class Eval:
     _uid = 0
 
-    def __init__(self, prog, fn, args=None, inline=None, depth=0, maxdepth=3, params=None, shared=None, assume=None):
+    def __init__(self, prog, fn, args=None, inline=None, depth=0, maxdepth=3, params=None, shared=None, assume=None, auto=True):
         self.P = prog
         self.fn = fn
-        self.inline = inline or auto_inline(prog, fn)
+        if inline is None:
+            self.inline = auto_inline(prog, fn)
+        elif auto and depth == 0:
+            # an explicit policy names the helpers a rule wants to see through; private helpers of the root function's own
+            # module are inlined as well (a helper a maintainer extracts or inlines must not change what a rule sees) unless
+            # the rule asks for exactly its policy (auto=False)
+            _a, _e = auto_inline(prog, fn), inline
+            self.inline = lambda n: bool(_e(n)) or _a(n)
+        else:
+            self.inline = inline
         self.depth = depth
         self.maxdepth = maxdepth
         self.params = params or {}
